@@ -21,7 +21,7 @@ func init() {
 	fw.Register(&fw.Prop{
 		ID:       "C06",
 		Parallel: 4, // cases are judged on 4 goroutines per shard: the library functions are stateless, shared state inside them shows up as wrong verdicts
-		Rule: "seeded histories of 3..14 operations on up to three instances (Absorb of 1..6 blocks split over several calls, Squeeze of 1..4 blocks in several calls with 1..64 destination lanes, Clone at any point with the two copies continued differently, Reset followed by new absorbs, zero-length Absorb and Squeeze pieces (no effect in the model whether refused or accepted; no Absorb follows an empty Squeeze), rejected calls with batch 0/65 or a length that is no multiple of 243) with batch sizes 1..64 (emphasis 1, 2, 63, 64) and trit contents random / all 0 / all 1 / all -1 / lanes identical but one trit / one hot lane; every squeezed lane is compared with a single-lane model sponge fed that lane's input alone; rejected calls must return the documented error and leave CopyState unchanged; Reset must give the CopyState of a fresh instance; a clone's state equals the original's and later operations on one do not change the other; the closing squeezes of all instances of a history (originals and clones) run concurrently in separate goroutines; in half of the histories the caller's dst slice is reused from call to call (a quarter pre-filled with one shared placeholder slice) and every output handed out earlier must be unchanged at the end. Run under the default (assembly) and the purego build; the output digests of the two builds must be equal. " +
+		Rule: "seeded histories of 3..14 operations on up to three instances (Absorb of 1..6 blocks split over several calls, Squeeze of 1..4 blocks (one call in fifty: 250..269 blocks, so that an instance delivers more than 255 and 256 blocks in total) in several calls with 1..64 destination lanes, Absorb of a batch with one lane shorter than announced (a panic is not judged, an error must leave the state untouched, then Reset), Clone at any point with the two copies continued differently, Reset followed by new absorbs, zero-length Absorb and Squeeze pieces (no effect in the model whether refused or accepted; no Absorb follows an empty Squeeze), rejected calls with batch 0/65 or a length that is no multiple of 243) with batch sizes 1..64 (emphasis 1, 2, 63, 64) and trit contents random / all 0 / all 1 / all -1 / lanes identical but one trit / one hot lane; every squeezed lane is compared with a single-lane model sponge fed that lane's input alone; rejected calls must return the documented error and leave CopyState unchanged; Reset must give the CopyState of a fresh instance; a clone's state equals the original's and later operations on one do not change the other; the closing squeezes of all instances of a history (originals and clones) run concurrently in separate goroutines; in half of the histories the caller's dst slice is reused from call to call (a quarter pre-filled with one shared placeholder slice) and every output handed out earlier must be unchanged at the end. Run under the default (assembly) and the purego build; the output digests of the two builds must be equal. " +
 			"Non-trivial: distinct histories with batch size < 64, or >= 2 absorb calls, or >= 2 squeeze calls, or a clone/reset.",
 		Assumptions: []string{"the single-lane Curl-P-81 model in harness/oracle/curlp (self-tested on published Curl-P-81 hashes incl. multi-block absorb and squeeze)", "absorb-after-squeeze (documented panic) and lanes beyond the absorbed batch are outside the statement and not judged"},
 		Builds:      []string{"default", "default+cpuoff", "purego", "386"}, // +cpuoff: the default binary with GODEBUG=cpu.all=off (fallback paths of run-time CPU dispatch)
@@ -102,7 +102,11 @@ func build(seed uint64) *history {
 			if r.Intn(3) == 0 {
 				lanes = 1 + r.Intn(maxBatch)
 			}
-			h.ops = append(h.ops, op{kind: "squeeze", inst: i, blocks: 1 + r.Intn(3), lanes: lanes})
+			blocks := 1 + r.Intn(3)
+			if r.Intn(50) == 0 {
+				blocks = 250 + r.Intn(20) // more than 255 blocks squeezed from one instance (block counters narrower than int)
+			}
+			h.ops = append(h.ops, op{kind: "squeeze", inst: i, blocks: blocks, lanes: lanes})
 			squeezing[i] = true
 		case k == 7 && ninst < 3:
 			h.ops = append(h.ops, op{kind: "clone", inst: i})
@@ -111,6 +115,12 @@ func build(seed uint64) *history {
 			ninst++
 		case k == 8:
 			h.ops = append(h.ops, op{kind: "reset", inst: i})
+			squeezing[i], absorbed[i] = false, false
+		case k == 9 && r.Intn(4) == 0:
+			// a batch in which one lane is shorter than the announced length (outside the statement's
+			// "equally long" precondition: a panic is not judged, an error must leave the state untouched);
+			// the instance is Reset afterwards
+			h.ops = append(h.ops, op{kind: "short-absorb", inst: i, blocks: 1 + r.Intn(3)}, op{kind: "reset", inst: i})
 			squeezing[i], absorbed[i] = false, false
 		case k == 9:
 			h.ops = append(h.ops, op{kind: "bad-absorb", inst: i, bad: r.Intn(4), blocks: 1 + r.Intn(2)})
@@ -378,6 +388,9 @@ func judge(class string, key []byte, o *fw.Obs) {
 				return
 			}
 			o.Count("squeeze calls")
+			if op.blocks > 200 {
+				o.Count("squeeze calls of more than 200 blocks")
+			}
 			for j := range in.m {
 				want := in.m[j].Squeeze(n)
 				if j >= op.lanes {
@@ -436,6 +449,30 @@ func judge(class string, key []byte, o *fw.Obs) {
 			}
 			in.m = make([]curlp.Sponge, h.batch)
 			o.Count("resets")
+		case "short-absorb":
+			l0, h0 := snapshot(in.c)
+			n := 243 * op.blocks
+			src := content(r, h.batch, n, 5)
+			j := r.Intn(h.batch)
+			cut := 1 + r.Intn(n)
+			short := make(trinary.Trits, n-cut) // len == cap: nothing readable behind it
+			copy(short, src[j])
+			src[j] = short
+			var err error
+			panicked := fw.TryPanics(func() { err = in.c.Absorb(src, n) }) != nil
+			switch {
+			case panicked:
+				o.Count("short lane: Absorb panicked (not judged)")
+			case err != nil:
+				l1, h1 := snapshot(in.c)
+				if l0 != l1 || h0 != h1 {
+					o.Fail("rejected", "%s: Absorb of a batch whose lane %d has %d instead of %d trits returned the error %q but changed the state", where, j, n-cut, n, err)
+					return
+				}
+				o.Count("short lane: Absorb returned an error and left the state untouched")
+			default:
+				o.Count("short lane: Absorb returned nil (not judged)")
+			}
 		case "bad-absorb", "bad-squeeze":
 			l0, h0 := snapshot(in.c)
 			var err, want error
